@@ -157,7 +157,7 @@ class FSLayer:
                ("os", "replace"), ("os", "rename"), ("os", "remove"), ("os", "unlink"), ("os", "stat"), ("os", "lstat"), ("os", "mkdir"),
                ("os", "makedirs"), ("os", "listdir"), ("os", "fdatasync"), ("os", "truncate"), ("os", "link"), ("os", "symlink"),
                ("tempfile", "mkstemp"), ("tempfile", "NamedTemporaryFile"), ("shutil", "move"), ("shutil", "copyfile"), ("shutil", "copy"),
-               ("shutil", "copy2")]
+               ("shutil", "copy2"), ("os", "readlink")]
 
     def __init__(self, backend, crash, mode="death", realroot=None):
         self.backend = backend          # 'model' | 'real'
@@ -165,6 +165,7 @@ class FSLayer:
         self.mode = mode                # 'death' | 'interrupt'
         self.realroot = realroot
         self.disk = {}                  # model: path -> bytes
+        self.links = {}                 # model: path of a symbolic link -> target path
         self.fds = {}                   # model: fd -> _VFile
         self.next_fd = 1000
         self.n_ops = 0
@@ -195,12 +196,22 @@ class FSLayer:
         p = os.fspath(p)
         return self.realroot + p[len(VROOT):]
 
+    def _res(self, p):
+        """Follow symbolic links (model back end)."""
+        p = os.fspath(p)
+        for _ in range(16):
+            if p not in self.links:
+                return p
+            t = self.links[p]
+            p = t if os.path.isabs(t) else os.path.normpath(os.path.join(os.path.dirname(p), t))
+        raise OSError(errno.ELOOP, os.strerror(errno.ELOOP), p)
+
     def _absent(self, p):
         return FileNotFoundError(errno.ENOENT, os.strerror(errno.ENOENT), os.fspath(p))
 
     def _isdir(self, p):
         p = os.fspath(p).rstrip("/")
-        return p == VROOT or any(k.startswith(p + "/") for k in self.disk) or p in self.dirs
+        return p == VROOT or any(k.startswith(p + "/") for k in self.disk) or any(k.startswith(p + "/") for k in self.links) or p in self.dirs
 
     dirs = set()
 
@@ -253,6 +264,7 @@ class FSLayer:
             return _RealFile(self, rf, p)
         if self.dead:
             return _VFile(self, p, mode, -1)
+        p = self._res(p)                 # opening follows symbolic links: writing through a link truncates its TARGET
         if "r" in mode and "+" not in mode and p not in self.disk:
             raise self._absent(p)
         if "x" in mode and p in self.disk:
@@ -274,8 +286,9 @@ class FSLayer:
         self.tick(f"os.open:{os.path.basename(p)}")
         if self.backend == "real":
             return orig(self.r(p), flags, mode, *a, **k)
-        if flags & os.O_EXCL and p in self.disk:
+        if flags & os.O_EXCL and (p in self.disk or p in self.links):
             raise FileExistsError(errno.EEXIST, os.strerror(errno.EEXIST), p)
+        p = self._res(p)
         if not (flags & os.O_CREAT) and p not in self.disk:
             raise self._absent(p)
         if flags & os.O_TRUNC or p not in self.disk:
@@ -334,8 +347,13 @@ class FSLayer:
             return orig(self.r(s), self.r(d), *a, **k)
         if self.dead:
             return None
+        if s in self.links:                      # the link itself is renamed
+            self.disk.pop(d, None)
+            self.links[d] = self.links.pop(s)
+            return None
         if s not in self.disk:
             raise self._absent(s)
+        self.links.pop(d, None)                  # a link at the destination is replaced, not followed
         self.disk[d] = self.disk.pop(s)          # atomic
         return None
 
@@ -353,17 +371,29 @@ class FSLayer:
             return orig(src, dst, *a, **k)
         s, d = os.fspath(src), os.fspath(dst)
         if self.backend == "real":
-            self.tick(f"{name}:{os.path.basename(s)}->{os.path.basename(d)}")
-            return orig(self.r(s), self.r(d), *a, **k)
-        # a copy is NOT atomic: truncate, then write in one or more chunks
+            # the same two steps shutil.copyfile performs (open the destination for writing = truncate, then copy the bytes), so that
+            # the operation indices agree with the model and a death between the two steps can be reproduced on the real file system
+            real_open = self._saved[("builtins", "open")]
+            self.tick(f"{name}-open:{os.path.basename(d)}")
+            with real_open(self.r(s), "rb") as fsrc:
+                data = fsrc.read()
+            fdst = real_open(self.r(d), "wb")
+            try:
+                self.tick(f"{name}-write:{os.path.basename(d)}")
+                fdst.write(data)
+            finally:
+                fdst.close()
+            return d
+        # a copy is NOT atomic: truncate, then write in one or more chunks; both ends follow symbolic links
         self.tick(f"{name}-open:{os.path.basename(d)}")
+        rs, rd = (self._res(s), self._res(d)) if not self.dead else (s, d)
         if not self.dead:
-            if s not in self.disk:
+            if rs not in self.disk:
                 raise self._absent(s)
-            self.disk[d] = b""
+            self.disk[rd] = b""
         self.tick(f"{name}-write:{os.path.basename(d)}")
         if not self.dead:
-            self.disk[d] = self.disk[s]
+            self.disk[rd] = self.disk[rs]
         return d
 
     def h_shutil_copyfile(self, orig, src, dst, *a, **k):
@@ -381,6 +411,9 @@ class FSLayer:
             return orig(self.r(p), *a, **k)
         if self.dead:
             return None
+        if p in self.links:
+            del self.links[p]                    # removes the link, never its target
+            return None
         if p not in self.disk:
             raise self._absent(p)
         del self.disk[p]
@@ -394,13 +427,45 @@ class FSLayer:
         p = os.fspath(path)
         if self.backend == "real":
             return orig(self.r(p), *a, **k)
+        if k.get("follow_symlinks", True):
+            p = self._res(p)
+        elif p in self.links:
+            return os.stat_result((_stat.S_IFLNK | 0o777, 1, 1, 1, 0, 0, len(self.links[p]), 0, 0, 0))
         if p in self.disk:
             return os.stat_result((_stat.S_IFREG | 0o644, 1, 1, 1, 0, 0, len(self.disk[p]), 0, 0, 0))
         if self._isdir(p):
             return os.stat_result((_stat.S_IFDIR | 0o755, 1, 1, 1, 0, 0, 0, 0, 0, 0))
         raise self._absent(p)
 
-    h_os_lstat = h_os_stat
+    def h_os_lstat(self, orig, path, *a, **k):
+        if isinstance(path, int) or not _is_v(path) or self.backend == "real":
+            return self.h_os_stat(orig, path, *a, **k)
+        k = dict(k, follow_symlinks=False)
+        return self.h_os_stat(orig, path, *a, **k)
+
+    def h_os_symlink(self, orig, src, dst, *a, **k):
+        if not _is_v(dst):
+            return orig(src, dst, *a, **k)
+        s, d = os.fspath(src), os.fspath(dst)
+        self.tick(f"symlink:{os.path.basename(d)}")
+        if self.backend == "real":
+            return orig(self.r(s) if _is_v(s) else s, self.r(d), *a, **k)
+        if self.dead:
+            return None
+        if d in self.disk or d in self.links:
+            raise FileExistsError(errno.EEXIST, os.strerror(errno.EEXIST), d)
+        self.links[d] = s
+
+    def h_os_readlink(self, orig, path, *a, **k):
+        if not _is_v(path):
+            return orig(path, *a, **k)
+        p = os.fspath(path)
+        if self.backend == "real":
+            t = orig(self.r(p), *a, **k)
+            return VROOT + t[len(self.realroot):] if t.startswith(self.realroot) else t
+        if p not in self.links:
+            raise OSError(errno.EINVAL, os.strerror(errno.EINVAL), p)
+        return self.links[p]
 
     def h_os_mkdir(self, orig, path, *a, **k):
         if not _is_v(path):
@@ -426,7 +491,7 @@ class FSLayer:
         p = os.fspath(path).rstrip("/")
         if self.backend == "real":
             return orig(self.r(p))
-        return sorted({k[len(p) + 1:].split("/")[0] for k in self.disk if k.startswith(p + "/")})
+        return sorted({k[len(p) + 1:].split("/")[0] for k in list(self.disk) + list(self.links) if k.startswith(p + "/")})
 
     def h_tempfile_mkstemp(self, orig, suffix=None, prefix=None, dir=None, text=False):
         if dir is None or not _is_v(dir):
